@@ -14,10 +14,11 @@ pub fn spec() -> PropSpec {
     PropSpec {
         id: "C02",
         level: "model_checking",
-        rule: "controlled-scheduler exploration of the REAL checker and VM under the rayon stand-in. Corpus: hand-built checker inputs with >= 2 solutions, graph levels with >= 2 nodes, node programs forking compute children (three nested levels of parallelism), two failing nodes in one level, several unsatisfied leaves, several data outputs; a deterministic thinning of the C01 encoding enumeration (cases with >= 2 solutions); VM programs whose compute children differ by index (memory sizes, final pcs, failing children, loop counters). Mode A: completion orders of every parallel section, every pick costs one deviation, deviation bound 2 (quick) / 3 (thorough) — all 6 orders of any 3-task section are within bound 2; mode B: op-granular preemptive interleavings (shuttle runtime, own DFS scheduler) with preemption bound 1 (quick) / 2 (thorough, capped). Oracle: the observation under every schedule equals the observation of the sequential (index-order) run: Ok/Err class, failing solution and node indices in order, gas, data outputs in order, computed mutations in order; for Vm::exec Ok(gas)+final pc/stack/memory or Err+index. Then the same inputs run free under real rayon pools of 1,2,3,4,8,16 threads x 3 (conformance of the stand-in): every observed result must be the one the exploration produced. states = distinct inputs, transitions = schedules executed, traces_validated_against_impl = schedules + free-running real-rayon runs. non-trivial = input with >= 2 schedules; distinct by input",
+        rule: "controlled-scheduler exploration of the REAL checker and VM under the rayon stand-in. Corpus: hand-built checker inputs with >= 2 solutions, graph levels with >= 2 nodes, node programs forking compute children (three nested levels of parallelism), two failing nodes in one level, several unsatisfied leaves, several data outputs; a deterministic thinning of the C01 encoding enumeration (cases with >= 2 solutions); VM programs whose compute children differ by index (memory sizes, final pcs, failing children, loop counters). Mode A: completion orders of every parallel section, every pick costs one deviation, deviation bound 2 (quick) / 3 (thorough) — all 6 orders of any 3-task section are within bound 2; mode B: op-granular preemptive interleavings (shuttle runtime, own DFS scheduler) with preemption bound 1 (quick) / 2 (thorough, capped); mode S: the hand-built corpus again in a build where essential-vm and essential-check are compiled from a token-rewritten copy of /repo's sources whose std::sync Mutex/RwLock/Condvar/Once/OnceLock/atomic/mpsc are shuttle's, so every synchronisation operation inside the checked crates (not only VM-op and task boundaries) is a scheduling point; every departure from the default schedule costs one deviation, bound 2 (quick) / 3 (thorough, capped). Oracle: the observation under every schedule equals the observation of the sequential (index-order) run: Ok/Err class, failing solution and node indices in order, gas, data outputs in order, computed mutations in order; for Vm::exec Ok(gas)+final pc/stack/memory or Err+index. Then the same inputs run free under real rayon pools of 1,2,3,4,8,16 threads x 3 (conformance of the stand-in): every observed result must be the one the exploration produced. states = distinct inputs, transitions = schedules executed, traces_validated_against_impl = schedules + free-running real-rayon runs. non-trivial = input with >= 2 schedules; distinct by input",
         assumptions: &[
             "which failing compute child's inner error is carried inside ComputeError::Exec is not compared (rayon keeps the first error to arrive)",
-            "interleavings finer than one VM operation, and HashMap iteration order, are outside",
+            "interleavings are at the granularity of synchronisation operations (mode S) and VM operations (mode B); safe Rust has no data races, so finer interleavings cannot change results; HashMap iteration order is outside",
+            "mode S binds by token rewriting: a synchronisation primitive reached through a path other than std::sync (core::sync, a re-export, another crate) stays std's and is not a scheduling point; Arc stays std's",
             "the stand-in models rayon 1.10's result assembly (index-ordered collects, first-arrived error) — bound to the implementation by the conformance runs",
         ],
         run,
@@ -98,14 +99,14 @@ pub fn explore_checker(name: &str, case: &CkCase, tier: Tier, rep: &mut Report) 
     seen
 }
 
-pub fn explore_program(name: &str, ops: &[Op], init: &crate::refvm::RVm, tier: Tier, rep: &mut Report) -> std::collections::BTreeSet<String> {
-    let env = ProgEnv::basic(Cost::Const(1), 100_000);
+pub fn explore_program(name: &str, ops: &[Op], init: &crate::refvm::RVm, envk: &str, tier: Tier, rep: &mut Report) -> std::collections::BTreeSet<String> {
+    let env = ProgEnv::named(envk, Cost::Const(1), 100_000);
     let h = Holey { ops: Arc::new(ops.iter().cloned().map(Some).collect()) };
     let seq = sched::run_sequential(|| run_real_with(init, h.clone(), &env, false));
     let want = sched_obs(&seq);
     let mut seen = std::collections::BTreeSet::new();
     seen.insert(format!("{want:?}"));
-    let cj = || json!({"kind": "vm-sched", "ops_hex": ops_hex(ops), "ops": ops_json(ops), "init": RvmSer::from(init)});
+    let cj = || json!({"kind": "vm-sched", "ops_hex": ops_hex(ops), "ops": ops_json(ops), "init": RvmSer::from(init), "env": envk});
     let bounds = Bounds { sched: tier.pick(3, 5), env: 0, max_runs: tier.pick(5000, 200_000) };
     let st = xplore::explore(
         vec![],
@@ -208,9 +209,57 @@ fn conformance(rep: &mut Report, expected: &std::collections::BTreeMap<String, s
     }
 }
 
+/// Mode S: the same inputs in the `syncmc` binary, where essential-vm and essential-check are
+/// compiled from a token-rewritten copy of /repo's sources with shuttle's Mutex / RwLock / Once /
+/// atomics / channels in place of `std::sync`'s — every synchronisation operation INSIDE the
+/// checked crates is a scheduling point there.
+fn sync_level(tier: Tier, names: &[String], rep: &mut Report) {
+    let exe = verif_root().join("harness/target/release/syncmc");
+    if std::env::var("C02_SYNC_UNAVAILABLE").is_ok() {
+        rep.cap("mode S unavailable: the rewritten copy of essential-vm/essential-check did not compile against shuttle's primitives on this tree (see the build note on stderr); modes A and B and the real-rayon conformance ran");
+        return;
+    }
+    if !exe.exists() {
+        rep.machinery_errors.push(format!("sync-level binary {exe:?} not built"));
+        return;
+    }
+    let out = std::process::Command::new(&exe).arg(if tier == Tier::Quick { "quick" } else { "thorough" }).args(names).output();
+    let Ok(out) = out else {
+        rep.machinery_errors.push("cannot run the sync-level binary".into());
+        return;
+    };
+    if !out.status.success() {
+        rep.machinery_errors.push(format!("sync-level binary failed: {}", String::from_utf8_lossy(&out.stderr).chars().take(300).collect::<String>()));
+        return;
+    }
+    let mut inputs = 0u64;
+    for line in String::from_utf8_lossy(&out.stdout).lines() {
+        let Ok(v) = serde_json::from_str::<Value>(line) else { continue };
+        let (Some(name), Some(n)) = (v["name"].as_str(), v["schedules"].as_u64()) else { continue };
+        inputs += 1;
+        rep.transitions += n;
+        rep.traces_validated_against_impl += n;
+        rep.add_extra("schedules_mode_s", n);
+        if v["capped"].as_bool().unwrap_or(false) {
+            rep.cap("mode S run cap hit on some inputs (count in inputs_capped_mode_s); below the cap the deviation-bounded DFS is complete");
+            rep.add_extra("inputs_capped_mode_s", 1);
+        }
+        let want = v["want"].as_str().unwrap_or("");
+        for bad in v["violations"].as_array().cloned().unwrap_or_default() {
+            let kind = if v["kind"] == "ck-sync" { "checker" } else { "vm" };
+            let choices: Vec<u32> = serde_json::from_value(bad["schedule"].clone()).unwrap_or_default();
+            report(kind, name, "S", choices, v["case"].clone(), want, bad["got"].as_str().unwrap_or(""), rep);
+        }
+    }
+    rep.add_extra("inputs_mode_s", inputs);
+    if inputs as usize != names.len() {
+        rep.machinery_errors.push(format!("sync-level binary answered for {inputs} of {} inputs", names.len()));
+    }
+}
+
 fn run(cfg: &RunCfg, rep: &mut Report) {
     super::vmgraph::install_hook();
-    rep.bound_completed = format!("mode A deviation bound {} (checker) / {} (vm); mode B preemption bound {} (checker) / {} (vm)", cfg.tier.pick(2, 3), cfg.tier.pick(3, 5), cfg.tier.pick(1, 2), cfg.tier.pick(2, 3));
+    rep.bound_completed = format!("mode A deviation bound {} (checker) / {} (vm); mode B preemption bound {} (checker) / {} (vm); mode S deviation bound {}", cfg.tier.pick(2, 3), cfg.tier.pick(3, 5), cfg.tier.pick(1, 2), cfg.tier.pick(2, 3), cfg.tier.pick(2, 3));
     let mut expected = std::collections::BTreeMap::new();
     let mut i = 0u64;
     for (name, case) in checker_inputs() {
@@ -222,11 +271,11 @@ fn run(cfg: &RunCfg, rep: &mut Report) {
             expected.insert(name, s);
         }
     }
-    for (name, ops, init) in vm_programs() {
+    for (name, ops, init, envk) in vm_programs() {
         i += 1;
         if cfg.mine(i) {
             wal::tick();
-            let s = explore_program(&name, &ops, &init, cfg.tier, rep);
+            let s = explore_program(&name, &ops, &init, envk, cfg.tier, rep);
             rep.sample(|| json!({"vm_program": name, "ops": ops_json(&ops), "distinct_results_over_all_schedules": s.len()}));
             expected.insert(name, s);
         }
@@ -242,6 +291,8 @@ fn run(cfg: &RunCfg, rep: &mut Report) {
     // only worker 0..n run it for their own names)
     if !expected.is_empty() {
         conformance(rep, &expected);
+        let names: Vec<String> = expected.keys().cloned().collect();
+        sync_level(cfg.tier, &names, rep);
     }
     rep.states = rep.distinct_nontrivial.len() as u64;
 }
@@ -251,6 +302,20 @@ fn replay(case: &Value) -> Result<bool, String> {
     let choices: Vec<u32> = serde_json::from_value(case["schedule"].clone()).map_err(|e| e.to_string())?;
     let mode = case["mode"].as_str().unwrap_or("A").to_string();
     match case["kind"].as_str() {
+        Some("ck-sync") | Some("vm-sync") => {
+            // mode S schedules only exist in the sync-level binary
+            let dir = verif_root().join("work");
+            let _ = std::fs::create_dir_all(&dir);
+            let f = dir.join(format!("c02-sync-replay-{}.json", std::process::id()));
+            std::fs::write(&f, case.to_string()).map_err(|e| e.to_string())?;
+            let st = std::process::Command::new(verif_root().join("harness/target/release/syncmc")).arg("--replay").arg(&f).status().map_err(|e| e.to_string())?;
+            let _ = std::fs::remove_file(&f);
+            match st.code() {
+                Some(0) => Ok(true),
+                Some(3) => Ok(false),
+                c => Err(format!("sync-level replay failed (exit {c:?}): divergence, nondeterminism or unreadable case")),
+            }
+        }
         Some("ck-sched") => {
             let c: CkCase = serde_json::from_value(case["case"].clone()).map_err(|e| e.to_string())?;
             let b = Arc::new(build(&c));
